@@ -8,7 +8,8 @@ TRUSTED = ["dict / re.match / str.isdigit semantics of _resolve_capabilities are
 ASSUMPTIONS = ["IR sets hold ASCII keys; when neither the exact key nor the key without swing nor the key without fan level is stored, "
                "or the 'off' code is missing, the property is silent and the case is compared with the model only"]
 RULE = ("generated IR sets (toggle / not, special-swing id / ordinary, dense / sparse, duplicate keys, code texts of 1..2000 bytes "
-        "with the stored key recoverable from the code) x requests over both power states, the 5 modes, the 4 fan levels, both swings, "
+        "with the stored key recoverable from the code; structured sets: swing entries only on plain / only on prefixed keys, fan entries all / none / some, "
+        "five orders of the wave list) x requests over both power states, the 5 modes, the 4 fan levels, both swings, "
         "previous power {none, on, off} and target temperatures 0..60, built directly on one remote object per set (the same request repeated with another previous power state) and for a sample through "
         "SwitcherBreezeRemoteManager.get_remote on a temporary database; non-trivial = distinct (set, request) pairs the Spec judges")
 REQUIREMENT = ("command = 00000000 ++ hex('Para|HexCode' of the most specific stored key: exact, else without swing, else without fan "
@@ -75,6 +76,39 @@ def run_stream(out, stream, cases, via_manager=False):
     lib.differential(out, stream + "-capabilities", cases, io_caps, mo, ex, lambda c: "capabilities of " + describe(c), sample=lambda c: describe(c)[:300])
 
 
+def shaped_sets(rnd):
+    """IR sets with a structure of their own: where the swing entries are (only plain keys, only keys with the toggle prefix, both,
+    none), which fan entries exist, temperatures ending in a fan digit, and the ORDER of the wave list (grouped by mode, plain
+    entries first, prefixed entries first, reversed, shuffled)"""
+    out = []
+    for toggle in (True, False):
+        for swing_where in (("plain", "prefixed", "both", "none") if toggle else ("plain", "none")):
+            for fans in ("all", "none", "some"):
+                for order in (("grouped", "plain-first", "prefixed-first", "reversed", "shuffled") if toggle else ("grouped", "reversed", "shuffled")):
+                    groups = []
+                    for mname, mc in world.MODES.items():
+                        bases = [mc] if mname in ("AUTO", "DRY", "FAN") else [mc] + [mc + "%d" % t for t in (20, 21, 22, 23, 30)]
+                        g_plain = []; g_pref = []
+                        for b in bases:
+                            fl = [0, 1, 2, 3] if fans == "all" else [] if fans == "none" else rnd.sample(range(4), 2)
+                            keys = [b] + ["%s_f%d" % (b, f) for f in fl]
+                            d1 = ["%s_f%d_d1" % (b, f) for f in fl] or [b + "_d1"]
+                            g_plain += keys + (d1 if swing_where in ("plain", "both") else [])
+                            if toggle: g_pref += ["on_" + k for k in keys] + (["on_" + k for k in d1] if swing_where in ("prefixed", "both") else [])
+                        groups.append((g_plain, g_pref))
+                    if order == "grouped": keys = [k for gp, gq in groups for k in gp + gq]
+                    elif order == "plain-first": keys = [k for gp, _ in groups for k in gp] + [k for _, gq in groups for k in gq]
+                    elif order == "prefixed-first": keys = [k for _, gq in groups for k in gq] + [k for gp, _ in groups for k in gp]
+                    else:
+                        keys = [k for gp, gq in groups for k in gp + gq]
+                        keys = keys[::-1] if order == "reversed" else rnd.sample(keys, len(keys))
+                    if not toggle: keys.append("off")
+                    waves = [{"Key": k, "Para": "P", "HexCode": (k.upper().encode().hex() + "%03d" % i).upper()} for i, k in enumerate(keys)]
+                    out.append({"IRSetID": rnd.choice(["DLK65863", "ELEC7001"]), "OnOffType": 1 if toggle else 0, "IRWaveList": waves,
+                                "shape": "%s swing=%s fans=%s order=%s" % ("toggle" if toggle else "plain", swing_where, fans, order)})
+    return out
+
+
 def run(tier, rnd, out):
     corpus = lib.load_corpus("C15")
     if corpus: run_stream(out, "corpus", corpus)
@@ -86,6 +120,13 @@ def run(tier, rnd, out):
             if rnd.random() < .4:                   # the same request again with another previous power state
                 q2 = list(q); q2[5] = rnd.choice([x for x in (None, True, False) if x != q[5]]); cs.append({"irset": s, "q": q2})
     run_stream(out, "build-command", cs)
+    cs = []
+    sets = shaped_sets(rnd)
+    for sset in (rnd.sample(sets, 24) if tier == "quick" else sets):
+        grid = [[on, m, t, f, sw, prev] for on in (True, False) for m in world.MODE_NAMES for t in (19, 20, 21, 22, 23, 30, 31) for f in world.FAN_NAMES
+                for sw in (True, False) for prev in (None, True, False)]
+        for q in (rnd.sample(grid, 70) if tier == "quick" else grid): cs.append({"irset": sset, "q": q})
+    run_stream(out, "structured-sets-and-wave-orders", cs)
     cs = []
     for _ in range(12 if tier == "quick" else 100):
         s = world.gen_irset(rnd); cs.append({"irset": s, "q": rand_request(rnd, s)})
